@@ -34,8 +34,15 @@ What is proved here about the model (Model.Lexer, Model.Parser, Model.Actions ov
     `shifted_comments_are_source_comments` — every comment of every shifted token is `CommentOK` (invariant of the
     parser-driven token source through `token` / `auto_semi` / `backtracked_token` / `p_error`);
     `comments_faithful` — the two combined, in reader's form (children = the token's hidden comments, in order).
-    `comments_in_source_order_partial` — source order within a node and disjointness across tokens, from the hypothesis
-    `ShiftedOrdered` (NOT proved for whole runs; see its docstring).
+    `comments_in_source_order` — for EVERY text (no hypothesis): the comments of the shifted tokens, in token order, are
+    pairwise disjoint and in source order (`ShiftedOrdered`, proved as `shifted_ordered` with the run invariant `Chain`:
+    every held / pending comment ends at or before the read position and — when the current raw token is a DIV — at or
+    before its START, which survives the rewind of the guarded `backtracked_token`; while a token is pushed back nothing
+    is pending, so a pop from `next_tokens` never overwrites the comments a token got when first lexed); hence source
+    order within every node, disjointness across tokens, and `attached_comment_offsets_increasing`: the captured comments
+    start at strictly increasing offsets — with `comments_attached_once`, no source comment occurrence is attached to two
+    nodes.  `comments_faithful_ordered` restates `comments_faithful` with these clauses.
+    (`comments_in_source_order_partial` is kept: the same conclusion from the hypothesis `ShiftedOrdered`.)
  PRINTING
   * `line_comment_followed_by_newline` (kernel decision over Gen.Defs / Gen.Rules) — in every definition a LineComment /
     BlockComment token is immediately followed by the Newline marker, and in every rule set that prints comments this
@@ -50,6 +57,7 @@ import CalmVerif.Proofs.CommentsParser
 import CalmVerif.Proofs.CommentsFull
 import CalmVerif.Proofs.CommentsWitness
 import CalmVerif.Proofs.CommentsFinal
+import CalmVerif.Proofs.CommentsOrderFinal
 import CalmVerif.Props.C03
 import CalmVerif.Proofs.CommentsFaithful
 import CalmVerif.Proofs.CommentsTable
@@ -249,6 +257,52 @@ theorem comments_in_source_order_partial (text : List Char) (hord : ShiftedOrder
     (shiftedTokens Grammar.cached text true).Pairwise (fun t₁ t₂ => ∀ a ∈ t₁.hidden, ∀ b ∈ t₂.hidden,
       a.lexpos + a.value.length ≤ b.lexpos) :=
   (shiftedOrdered_iff Grammar.cached text true).mp hord
+
+/-- T: `ShiftedOrdered` holds for every text (whole runs of the parser model, through `auto_semi`, pops from
+    `next_tokens` and the rewind of `backtracked_token`) -/
+theorem shifted_ordered (text : List Char) : ShiftedOrdered Grammar.cached text true :=
+  Proofs.Comments.shifted_ordered Grammar.cached text
+
+/-- T `comments_in_source_order` (no hypothesis): for every text, the hidden comments of every shifted token — hence the
+    children of every attached Comments node (`comments_faithful`) — are in source order and disjoint, and the comments of
+    two different shifted tokens never overlap (the earlier token's comments lie entirely before the later one's) -/
+theorem comments_in_source_order (text : List Char) :
+    (∀ t ∈ shiftedTokens Grammar.cached text true,
+      t.hidden.Pairwise (fun a b => a.lexpos + a.value.length ≤ b.lexpos)) ∧
+    (shiftedTokens Grammar.cached text true).Pairwise (fun t₁ t₂ => ∀ a ∈ t₁.hidden, ∀ b ∈ t₂.hidden,
+      a.lexpos + a.value.length ≤ b.lexpos) :=
+  comments_in_source_order_partial text (shifted_ordered text)
+
+/-- T: the captured comments of the shifted tokens, in token order, start at strictly increasing source offsets (each is
+    non-empty and ends before the next starts): no source comment occurrence is carried twice.  With
+    `comments_attached_once` (every attached Comments node is `set_comments` of a shifted token, with multiplicity) no
+    source comment occurrence is attached to two nodes of the tree. -/
+theorem attached_comment_offsets_increasing (text : List Char) :
+    (((shiftedTokens Grammar.cached text true).flatMap (·.hidden)).map (·.lexpos)).Pairwise (· < ·) :=
+  shifted_offsets_increasing Grammar.cached text
+
+/-- T `comments_faithful` with the order clauses: for the tree accepted by `parse text true`,
+    (1) its `@comments` attributes are, with multiplicity, among `set_comments` of the shifted tokens;
+    (2) every one of them is the Comments node of a shifted token `t` whose hidden comments are comment tokens of the source
+        (verbatim at their offsets), IN SOURCE ORDER and pairwise disjoint, one child per comment in that order;
+    (3) comments of different shifted tokens never overlap, and all captured comments start at strictly increasing offsets. -/
+theorem comments_faithful_ordered (text : List Char) (v : Actions.PVal) (h : Parser.parse text true = .accepted v) :
+    List.Subperm (cms v.v) (hiddenCms (shiftedTokens Grammar.cached text true)) ∧
+    (∀ C ∈ cms v.v, ∃ t ∈ shiftedTokens Grammar.cached text true,
+      (∀ c ∈ t.hidden, CommentOK text c) ∧
+      t.hidden.Pairwise (fun a b => a.lexpos + a.value.length ≤ b.lexpos) ∧
+      ∃ kids p0, C = .node "Comments" [("children", .list kids), ("@pos", p0), ("@tokmap", .list [])] ∧
+        kids.map (fun k => (k.attr? "value", k.attr? "@pos")) =
+          t.hidden.map (fun c => (some (Val.str (String.ofList c.value)),
+            some (Actions.posVal c.lexpos c.lineno c.colno)))) ∧
+    (shiftedTokens Grammar.cached text true).Pairwise (fun t₁ t₂ => ∀ a ∈ t₁.hidden, ∀ b ∈ t₂.hidden,
+      a.lexpos + a.value.length ≤ b.lexpos) ∧
+    (((shiftedTokens Grammar.cached text true).flatMap (·.hidden)).map (·.lexpos)).Pairwise (· < ·) := by
+  refine ⟨comments_attached_once text v h, ?_, (comments_in_source_order text).2,
+    attached_comment_offsets_increasing text⟩
+  intro C hC
+  obtain ⟨t, ht, hok, hk⟩ := comments_faithful text v h C hC
+  exact ⟨t, ht, hok, (comments_in_source_order text).1 t ht, hk⟩
 
 /-- non-vacuity (kernel evaluation): on `/*x*/a+/*y*/b` the accepted tree has two `@comments` attributes, the driver
     shifted tokens carrying two comment lists, and the hypothesis of the partial theorem holds -/
